@@ -173,7 +173,7 @@ def unequal_ends(g, k):
 def closed_setup(rng, cls, g, want_periodic, allow_unequal=False):
     from ..oracles import AXKIND
     capable = [k for k in range(g.nd) if AXKIND[cls][k] in ('len', 'ang') and (allow_unequal or not unequal_ends(g, k))]
-    periodic = [k for k in capable if want_periodic and rng.random() < 0.6]
+    periodic = [k for k in capable if want_periodic and (want_periodic == 'all' or rng.random() < 0.6)]
     spec = {'periodic': periodic, 'sides': {}}
     for k in range(g.nd):
         for side in SIDES[k]:
@@ -219,6 +219,17 @@ def steps(case, rng, cls, faces, meta, g, m):
     draws = [(float(10 ** rng.uniform(-6, 6)), float(10 ** rng.uniform(-1, 1)), str(rng.choice(LIMITERS)), float(10 ** rng.uniform(-3, 0)))
              for _ in range(nsteps)]
     upw_per = bool(periodic) and scheme in ('upwind', 'upwind+tvd') and any(np.any(u[k] != 0) for k in periodic)
+    # extras of the implicit loop, drawn once (the re-run of the known-finding discriminator must repeat them)
+    Fx, _ = gen.face_arrays(rng, g, 'random')
+    for k in range(g.nd):
+        idx = [slice(None)] * g.nd
+        idx[k] = [0, -1]
+        Fx[k][tuple(idx)] = 0.0          # no flux through the walls
+    extras = {'alpha_var': bool(rng.random() < 0.35), 'flux_vec': bool(rng.random() < 0.35), 'F': Fx}
+    if extras['alpha_var'] and mode == 'implicit':
+        cov['alpha_cellvariable_refreshed_in_place'] = 1
+    if extras['flux_vec'] and mode == 'implicit' and not periodic and cls != 'SphericalGrid3D':
+        cov['flux_vector_reused_first_in_list'] = 1
 
     def simulate(u):
         """returns (message of first violating step or None, worst ratio, worst ratio in the operators' own measure, finite?)"""
@@ -227,6 +238,11 @@ def steps(case, rng, cls, faces, meta, g, m):
         # the documented time-loop idiom: a second variable holds the previous step and is refreshed with update_value()
         phi_old = pf.CellVariable(m, vals.copy(), gen.make_bc(pf, m, g, spec)) if carry == 'update' else None
         uf, Df = gen.facevar(pf, m, u), gen.facevar(pf, m, D)
+        alpha_var = pf.CellVariable(m, 1.0) if (mode == 'implicit' and extras['alpha_var']) else None
+        flux_vec = None
+        if mode == 'implicit' and extras['flux_vec'] and not periodic and cls != 'SphericalGrid3D':
+            Fp = [a.copy() for a in extras['F']]
+            flux_vec = -pf.divergenceTerm(gen.facevar(pf, m, Fp))
         worst, worst_own, msg = 0.0, 0.0, None
         seam['explained'] = True
         with np.errstate(all='ignore'):
@@ -236,14 +252,23 @@ def steps(case, rng, cls, faces, meta, g, m):
                 I0 = phi.domainIntegral()
                 own0 = float((W * phi.value).sum()) if W is not None else None
                 if mode == 'implicit':
-                    dt = dt_draw
-                    terms = [pf.transientTerm(phi_old if carry == 'update' else phi, dt, alpha), -pf.diffusionTerm(Df)]
+                    dt = dt_draw if alpha_var is None else draws[0][0]        # (fixed time step while the storage coefficient changes)
+                    alpha_arg = alpha
+                    if alpha_var is not None:
+                        # storage coefficient kept in ONE CellVariable that is refreshed in place every step (spatially uniform, so that
+                        # domainIntegral() itself is the conserved quantity)
+                        alpha_var.value = np.full(g.dims, alpha)
+                        alpha_arg = alpha_var
+                    terms = [pf.transientTerm(phi_old if carry == 'update' else phi, dt, alpha_arg), -pf.diffusionTerm(Df)]
                     if scheme == 'central':
                         terms.append(pf.convectionTerm(uf))
                     elif scheme.startswith('upwind'):
                         terms.append(pf.convectionUpwindTerm(uf))
                         if scheme.endswith('tvd'):
                             terms.append(pf.convectionTVDupwindRHSTerm(uf, phi, pf.fluxLimiter(limname)))
+                    if flux_vec is not None:
+                        terms = [flux_vec] + terms         # explicit divergence of a prescribed flux without wall-normal part: built once, first in the list
+                    terms = gen.vary_terms(rng, terms)
                     spy = SpySolver()
                     solve_with(pf, spy, phi, terms, default_path=bool(case['seed'][-1] % 2))
                     Mx, b, x = spy.last
@@ -596,6 +621,13 @@ def plan(tier, seed):
             for rep in range(3 if q else 60):
                 cases.append({'cls': cls, 'kind': 'open', 'scheme': scheme, 'seed': [seed, 1, ci, i]})
                 i += 1
+        if NDIM[cls] > 1 or cls == 'Grid1D':
+            # every periodic-capable axis periodic at once, end cells of different width (graded grids), implicit steps
+            for scheme in ('none', 'central'):
+                for rep in range(4 if q else 40):
+                    cases.append({'cls': cls, 'kind': 'steps', 'mode': 'implicit', 'scheme': scheme, 'periodic': 'all', 'carry': 'rebind', 'family': ['random', 'geometric'][rep % 2],
+                                  'seed': [seed, 1, ci, i]})
+                    i += 1
         for mode in ('to-periodic', 'close-dirichlet', 'copies', 'shared-bc'):
             for rep in range(8 if q else 120):
                 cases.append({'cls': cls, 'kind': 'reconfig', 'mode': mode, 'seed': [seed, 1, ci, i]})
@@ -615,7 +647,7 @@ def floors(agg, tier):
         for kind, need in (('steps', 20), ('open', 6)):
             if agg['cov'].get('kind:%s:%s' % (kind, cls), 0) < need:
                 out.append('kind:%s:%s < %d' % (kind, cls, need))
-    for k in ('geo:nano', 'geo:jitter', 'geo:mega', 'geo:int', 'geo:offset', 'geo:negative', 'geo:wild', 'closure:periodic', 'closure:walls', 'carry:update:explicit', 'carry:update:implicit', 'carry:rebind:explicit', 'periodic_unequal_ends:implicit', 'periodic_unequal_ends:explicit', 'steps:implicit:upwind+tvd', 'steps:explicit:central', 'reconfig:to-periodic', 'reconfig:close-dirichlet', 'reconfig:copies', 'reconfig:shared-bc'):
+    for k in ('alpha_cellvariable_refreshed_in_place', 'flux_vector_reused_first_in_list', 'geo:nano', 'geo:jitter', 'geo:mega', 'geo:int', 'geo:offset', 'geo:negative', 'geo:wild', 'closure:periodic', 'closure:walls', 'carry:update:explicit', 'carry:update:implicit', 'carry:rebind:explicit', 'periodic_unequal_ends:implicit', 'periodic_unequal_ends:explicit', 'steps:implicit:upwind+tvd', 'steps:explicit:central', 'reconfig:to-periodic', 'reconfig:close-dirichlet', 'reconfig:copies', 'reconfig:shared-bc'):
         if agg['cov'].get(k, 0) < 10:
             out.append('%s < 10' % k)
     return out
